@@ -385,26 +385,63 @@ def hist(vals):
     return h
 
 
-def corpus_check(ctx, fam, build, K, extra_adv, level_extra, assumptions, floors, nlo=-1, nhi=3, stage1=False, second_pass=None):
+def corpus_check(ctx, fam, build, K, extra_adv, level_extra, assumptions, floors, nlo=-1, nhi=3, stage1=False, second_pass=None, ref_tree="src"):
     corp = corpus.Corpus(ctx, fam)
     corp.driver_bin = runner.build_driver(ctx)
     corp.stage1 = stage1
     counts = build(corp)
     corp.write(K, extra_adv, nlo, nhi)
     corp.compile()
-    corp.quarantine_unbuildable(("out",))
-    pairs = corp.pairs()
+    front_end = []
+    if stage1:
+        # the unoptimised stage still imports the co package it no longer uses (import clean-up is
+        # stage 2's job): drop exactly that import, then require the unoptimised world to build
+        files = []
+        for d in corp.batches:
+            ud = os.path.join(ctx.ws, "unopt", d)
+            if os.path.isdir(ud):
+                files += [os.path.join(ud, f) for f in os.listdir(ud) if f.endswith(".go")]
+        for i in range(0, len(files), 200):
+            runner.sh([runner.build_engine(), "fiximports"] + files[i:i + 200])
+        corp.quarantine_unbuildable(("unopt",))
+        before = dict(corp.unbuildable)
+        corp.quarantine_unbuildable(("out",))
+        for pid, msg in corp.unbuildable.items():
+            if pid not in before:
+                front_end.append((pid, msg))
+    else:
+        corp.quarantine_unbuildable(("out",))
+    pairs = corp.pairs(ref_tree=ref_tree)
     if not pairs:
         raise CheckError("no corpus package survived compilation")
     args = engine_common(ctx)
+    if ref_tree != "src":
+        args = args + ["-refplain"]
     res = runner.run_engine(ctx, pairs + args)
-    new, known, replayed, mism, details = corpus.process_two_world(ctx, corp, res)
+    new, known, replayed, mism, details = corpus.process_two_world(ctx, corp, res, ref_tree=ref_tree)
+    # build clause (C07): optimised output does not type-check although the unoptimised stage does
+    fe_details = []
+    for pid, msg in front_end:
+        prog = corp.programs.get(pid)
+        tags = prog.tags if prog else set()
+        f = {"kind": "front-end-refutation", "msg": msg, "model": {}, "logs": {}}
+        k = runner.match_known(ctx.pid, "Drive_G" + pid, f, tags)
+        if k:
+            known.append({"finding": k["finding_id"], "driver": "G" + pid, "tags": sorted(tags)})
+            print("KNOWN-FINDING: property=%s %s [%s] program=G%s" % (ctx.pid, k["what"], k["finding_id"], pid))
+        else:
+            new += 1
+            path = runner.save_replay(ctx, "fe" + pid, [], {"property": ctx.pid, "program": "G" + pid, "kind": "front-end-refutation (not a solver verdict)",
+                                                           "what": "the optimised output does not type-check although the unoptimised stage output does", "error": msg,
+                                                           "source": prog.source(K, extra_adv, nlo, nhi) if prog else ""})
+            print("VIOLATION property=%s replay=%s" % (ctx.pid, path))
+        fe_details.append({"program": "G" + pid, "error": msg, "known": bool(k), "tags": sorted(tags)})
     if second_pass:
         # single-world harness drivers inside the generated packages (e.g. YieldFrom form == range form)
         hargs = []
         for i in range(0, len(pairs), 2):
             hargs += ["-harness", pairs[i + 1].split("=")[1]]
-        res2 = runner.run_engine(ctx, hargs + ["-drivers", second_pass] + args, name="result2")
+        res2 = runner.run_engine(ctx, hargs + ["-drivers", second_pass] + engine_common(ctx), name="result2")
         n2, k2, r2, m2, d2 = 0, [], 0, 0, []
         for d in res2["drivers"]:
             if d["status"] != "violated":
@@ -432,6 +469,7 @@ def corpus_check(ctx, fam, build, K, extra_adv, level_extra, assumptions, floors
         "rejected_by_message": hist(corp.rejected.values()),
         "unbuildable_by_message": hist(corp.unbuildable.values()),
         "unbuildable_samples": dict(list(corp.unbuildable.items())[:5]),
+        "front_end_refutations": fe_details,
         "corpus": counts,
         "compile_s": round(corp.compile_s, 1),
         "feature_tags_decided": dict(sorted(decided_tags.items())),
@@ -680,3 +718,79 @@ def plan_C06(ctx):
 
 
 CLAIMED["C06"] = plan_C06
+
+
+ETA_TYPES = """type cnt@ struct{ v int }
+
+func (c cnt@) Get() int   { return c.v }
+func (c *cnt@) Inc() int  { c.v++; return c.v }
+func id@[T any](x T) T    { return x }
+func twice@(x int) int    { return x * 2 }
+"""
+
+
+def eta_programs():
+    """user closures of the shape func(params) T { return f(params) } in generator bodies"""
+    Y = lambda e: ("yield", e)
+    P = []
+    P.append(("funcvar", [("raw", "h := func(x int) int { return x + 1 }\nf := func(x int) int { return h(x) }"), Y("f(a)"), ("raw", "h = func(x int) int { return x + 2 }"), Y("f(a)")]))
+    P.append(("method_value_reassigned", [("raw", "s := cnt@{v: a}\nget := func() int { return s.Get() }"), Y("get()"), ("raw", "s = cnt@{v: b}"), Y("get() + 1")]))
+    P.append(("nil_receiver_later_set", [("raw", "var p *cnt@\ninc := func() int { return p.Inc() }\np = &cnt@{v: a}"), Y("inc()"), Y("inc() + 1")]))
+    P.append(("pull_loop_reassign", [("raw", "it := H2(a)"), ("for", None, "it.MoveNext()", None, [Y("it.Current()"), ("if", "g1", [("raw", "it = H2(b)\ng1 = false")], None)])]))
+    P.append(("pull_loop_stable", [("raw", "it := H2(a)"), ("for", None, "it.MoveNext()", None, [Y("it.Current()")]), Y("b")]))
+    P.append(("builtin_len", [("raw", "ln := func(s string) int { return len(s) }"), Y("ln(\"abc\") + a")]))
+    P.append(("conversion", [("raw", "cv := func(x int) int64 { return int64(x) }"), Y("int(cv(a)) + 1")]))
+    P.append(("generic_inferred", [("raw", "idf := func(x int) int { return id@(x) }"), Y("idf(a) + 1")]))
+    P.append(("generic_explicit", [("raw", "idf := func(x int) int { return id@[int](x) }"), Y("idf(a) + 1")]))
+    P.append(("plain_func", [("raw", "tw := func(x int) int { return twice@(x) }"), Y("tw(a) + 1"), Y("tw(b)")]))
+    P.append(("param_shadow", [("raw", "x := a\nf := func(y int) int { return twice@(x) }"), Y("f(b)"), ("raw", "x = b"), Y("f(a)")]))
+    P.append(("funcvar_in_loop", [("raw", "h := func(x int) int { return x + 1 }"), ("for", ("decl", "i", "0"), "i < n", ("inc", "i"), [("raw", "f := func(x int) int { return h(x) }\nh = func(x int) int { return x + 10*(i+1) }"), Y("f(a)")])]))
+    out = []
+    for name, body in P:
+        helpers = ETA_TYPES + ("\n" + C01_HELPERS if "H2(" in repr(body) else "")
+        p = gen.Program("eta_%s" % name, body, helpers=helpers, family="eta", tags={"eta:" + name})
+        out.append(p)
+    return out
+
+
+def plan_C07(ctx):
+    K = ctx.q(6, 12)
+
+    def build(corp):
+        counts = build_c01_corpus(ctx, corp, ctx.q(137, 2000), ctx.q(120, 1000), sample_seed_off=7)
+        # effect-instrumented sample (evaluation points visible)
+        rng = random.Random(ctx.seed * 7 + 77)
+        n = 0
+        for body in gen.sampled(rng, ctx.q(100, 800), 10):
+            body = gen.effectify(body, rng, gen.Ctr())
+            corp.add(gen.Program("f%04d" % n, body, named_result=(n % 2 == 0), family="eff"))
+            n += 1
+        # delegating programs
+        smp = gen.YFSampler(rng)
+        m = 0
+        tries = 0
+        while m < ctx.q(60, 500) and tries < 20000:
+            tries += 1
+            body = smp.body([rng.randint(3, 9)], gen.Ctr(), [], False, False, 0, [])
+            if "yieldfrom" not in repr(body):
+                continue
+            corp.add(gen.Program("y%04d" % m, body, helpers=gen.C05_HELPERS, named_result=(m % 2 == 0), family="yf"))
+            m += 1
+        for p in eta_programs():
+            p.helpers = p.helpers.replace("@", p.pid)
+            p.body = [tuple(x.replace("@", p.pid) if isinstance(x, str) else x for x in st) for st in p.body]
+            corp.add(p)
+        counts.update({"effect_instrumented": n, "delegating": m, "eta_shapes": len(eta_programs())})
+        return counts
+
+    extra = {
+        "bounds": {"advances_K": K, "loop_bound_n": "[-1,3]", "outside": "program shapes not generated; optimiser behaviour on files the rewriter does not produce"},
+        "explanation": "reference = output of stage 1 only (VerifRewriteStage hook: the same rewriteAllFiles and printer as Compile) with its unused co import removed; implementation = output of the unmodified rewriter.Compile; both are generated Go linked with the real seq, executed symbolically on the same path; flat log equality incl. advance markers and rt.Eff events. Build clause: a program whose optimised output fails go/types while the unoptimised one passes is a front-end refutation.",
+    }
+    return corpus_check(ctx, "c07", build, K, 1, extra,
+                        ["both worlds are plain Go (no coroutine intrinsics)", PROGRAM_DIM,
+                         "the unoptimised world is the hook's output after removing the co import it no longer uses (go/types would otherwise reject it; production never builds that stage)"],
+                        floors={"drivers_holds": ctx.q(200, 2000)}, stage1=True, ref_tree="unopt")
+
+
+CLAIMED["C07"] = plan_C07
